@@ -227,7 +227,7 @@ func bigDoc(r *Rng, nbuf int, bad int) []byte {
 
 // ringModelHasAbandon: the ring transition system knows the producer's failure path
 // (terminator sent while an acquired buffer is withheld); set once Model/Ring.v has it
-const ringModelHasAbandon = false
+const ringModelHasAbandon = true
 
 func checkC07(c *Ctx) {
 	r := c.Rng
